@@ -5,8 +5,9 @@ cd "$(dirname "$0")"
 export CARGO_NET_OFFLINE=true
 mkdir -p .build evidence
 python3 tools/gen_tables.py /repo coq/Gen/Tables.v
-(cd coq && ./mk.sh) 2>&1 | grep -v '^COQ\|Closed under the global context' || true
-test -f coq/Props/C19.vo
+TARGETS=$(for p in $(cat claims/READY); do echo Props/$p.vo; done)
+(cd coq && COQ_TIMEOUT=1400 ./mk.sh $TARGETS) 2>&1 | grep -v '^COQ\|Closed under the global context' || true
+for p in $(cat claims/READY); do test -f coq/Props/$p.vo || { echo "setup: coq/Props/$p.vo not built"; exit 1; }; done
 (cd /repo && RUSTFLAGS="--cfg agentpack_verif" CARGO_TARGET_DIR=/verif/.build/target cargo build --offline --quiet)
 cp /repo/Cargo.lock harness/rs/Cargo.lock
 (cd harness/rs && RUSTFLAGS="--cfg agentpack_verif" CARGO_TARGET_DIR=/verif/.build/target cargo build --offline --quiet)
